@@ -32,7 +32,7 @@ P = {
  ["which of two tokens declaring the same name wins under the default processor", "the round-trip formulation 'substituting back reproduces the path' (the per-variable statement is proved instead)", "what a JSR311 group captures (A-JSR)"],
  TECH),
 "C05": (True,
- "Deductive proof that sortedMimes returns the ranking of the usable ranges of the Accept header: the list equals, entry by entry, a ranking witness (media type and weight of each range taken from the header grammar: text before the first ';' and the value of the q parameter wherever it stands among the parameters, both without the optional whitespace around ',' ';' '='), and inductive lemmas prove about that witness what the statement asks — every position holds a usable range, every usable range has exactly one position, greater q first and header order on ties; that insertMime places an entry behind every entry of at least its quality and before the first entry of lower quality and keeps the order of the others; and that Response.EntityWriter, when every produced media type has a writer registered under its own name, returns the writer of the range the header ranks highest among the ranges the route can answer ('*/*' standing for the first Produces entry), never answers 'no writer' when some usable range can be answered from the Produces list, and is total.",
+ "Deductive proof that sortedMimes returns the ranking of the usable ranges of the Accept header: the list equals, entry by entry, a ranking witness (media type and weight of each range taken from the header grammar: text before the first ';' and the value of the q parameter wherever it stands among the parameters, both without the optional whitespace around ',' ';' '='), and inductive lemmas prove about that witness what the statement asks — every position holds a usable range, every usable range has exactly one position, greater q first and header order on ties; that insertMime places an entry behind every entry of at least its quality and before the first entry of lower quality and keeps the order of the others; and that Response.EntityWriter, when every produced media type has a writer registered under its own name, returns the writer of the range the header ranks highest among the ranges the route can answer ('*/*' standing for the first Produces entry), never answers 'no writer' when some usable range can be answered from the Produces list, and is total; that a space before or behind a range changes neither its media type nor its weight (lemmas over the Trim model); that WriteHeaderAndEntity hands the value to the chosen writer exactly once (or records and sends 406) and that writeXML/writeJSON and the convenience writers label the response with the content type they were given.",
  COMMON_ASSUME + "strconv.ParseFloat as a deterministic uninterpreted function into the reals (NaN and infinities excluded: a q-value of NaN would compare false both ways); models of strings.Split/Trim; accessorAt's contract (proved, C16).",
  ["the Content-Type header itself is set by the registered accessor's Write (user code for custom registrations; the built-in writeJSON/writeXML set the content type they were registered with)", "ranges whose q-value is not a number rank nowhere (then the router may admit a request on Accept grounds that the entity writer answers from its fallbacks: the substring lookup over the registry map, DefaultResponseMimeType, the first produced type) — documented as D17, not checked", "q=0 is treated as a weight like any other"],
  TECH + ", inductive lemmas"),
@@ -72,8 +72,8 @@ P = {
  ["real schedules and the Go memory model (a lock-discipline proof, not a race detector)", "exported fields users may touch without the lock"],
  TECH + ", guarded-by obligations"),
 "C13": (True,
- "Deductive proof of compressor ownership: NewCompressingResponseWriter acquires exactly one compressor and Resets it; Close releases it exactly once and refuses a second Close; Request.ReadEntity, Container.ServeHTTP and the handler Handle registers release everything they acquire on every exit (ghost counters; the same balance for dispatch is an obligation of the C10 check); ReadEntity Resets the pooled reader onto the body before any read; BoundedCachedCompressors Acquire* return a fresh or pooled-and-unheld object and Release* never blocks (select with default) and only sends an object the caller held.",
- COMMON_ASSUME + "A-POOL (channel model: receive yields an object some release sent), A-CODEC, SyncPoolCompessors (sync.Pool) not modelled; user callbacks cannot release the gzip reader ReadEntity holds.",
+ "Deductive proof of compressor ownership: NewCompressingResponseWriter acquires exactly one compressor and Resets it; Close releases it exactly once and refuses a second Close; Request.ReadEntity, Container.ServeHTTP and the handler Handle registers release everything they acquire on every exit (ghost counters; the same balance for dispatch is an obligation of the C10 check); ReadEntity Resets the pooled reader onto the body before any read; BoundedCachedCompressors Acquire* return a fresh or pooled-and-unheld object and Release* never blocks (select with default) and only sends an object the caller held. SyncPoolCompessors (the default provider) hands out exactly what the sync.Pool of the right kind gave and puts back exactly the object it was given, once, into the pool of the right kind.",
+ COMMON_ASSUME + "A-POOL (channel model: receive yields an object some release sent; sync.Pool.Get yields an unheld object of the pool's kind, Get/Put never block), A-CODEC; user callbacks cannot release the gzip reader ReadEntity holds.",
  ["real schedules", "sync.Pool internals", "ReadEntity leaves Request.Body pointing at the released reader (D13, candidate only, sequentially benign)"],
  TECH),
 "C14": (True,
